@@ -49,6 +49,8 @@ def one_prop(P):
     return rows
 
 props = sorted(d for d in os.listdir(rd) if os.path.isdir(os.path.join(rd, d, "out")))
+if len(sys.argv) > 3:
+    props = [p for p in props if p in sys.argv[3:]]
 allrows = []
 with cf.ThreadPoolExecutor(max_workers=5) as ex:
     for rows in ex.map(one_prop, props):
